@@ -1,15 +1,4 @@
-mod access;
-mod arrowfmt;
-mod cmp;
-mod gen;
-mod model;
-mod props;
-mod readers;
-mod rt;
-mod selftest;
-mod spec;
-mod tarfmt;
-mod watch;
+use pv::{props, rt, spec, watch};
 
 use rt::{Ctx, Tier};
 
@@ -42,6 +31,16 @@ fn main() {
 					_ => usage(),
 				};
 			}
+			// global watchdog: a check that cannot finish is inconclusive (exit 2), never a violation
+			let limit = std::env::var("PV_WATCHDOG_S").ok().and_then(|s| s.parse().ok()).unwrap_or(match tier {
+				Tier::Quick => 1500u64,
+				Tier::Thorough => 6 * 3600,
+			});
+			std::thread::spawn(move || {
+				std::thread::sleep(std::time::Duration::from_secs(limit));
+				eprintln!("watchdog: no result after {} s: inconclusive", limit);
+				std::process::exit(2);
+			});
 			let ctx = Ctx::new(&prop, tier, seed, props::level(&prop), &root);
 			let r = std::panic::catch_unwind(std::panic::AssertUnwindSafe(|| {
 				let v = props::regressions(&ctx);
